@@ -704,6 +704,10 @@ func genCfg(r *rand.Rand, adversarial bool) rcfg {
 	prevT := []string{"back", "previous", "prev"}[r.Intn(3)]
 	m.browse = stdBrowse(nextT, prevT)
 	if r.Intn(6) == 0 {
+		// only 'next' configured (MNEXT without MPREV): pages after the first offer no way back
+		m.browse.PreviousAvailable = false
+	}
+	if r.Intn(6) == 0 {
 		c.labels["to_foo"] = tblEntry{val: "go to foo"}
 	}
 	if r.Intn(30) == 0 {
